@@ -27,6 +27,11 @@ func (t trackCodec) Unmarshal(data []byte, msg any) error {
 	return t.rawCodec.Unmarshal(data, msg)
 }
 
+// namelessCodec reports the empty name: WithCodec is documented to ignore it.
+type namelessCodec struct{ trackCodec }
+
+func (namelessCodec) Name() string { return "" }
+
 type specIcpt struct {
 	count int
 	spec  connect.Spec
@@ -68,6 +73,10 @@ func dispOp(c *Ctx, op string) {
 		side := &eventLog{}
 		opts := []connect.HandlerOption{connect.WithInterceptors(icpt), connect.WithInterceptors(&logIcpt{id: 1, log: side}, &logIcpt{id: 2, log: side})}
 		for _, name := range strings.Split(a["codecs"], ",") {
+			if name == "" {
+				opts = append(opts, connect.WithCodec(namelessCodec{trackCodec{rawCodec{"x"}, &used}}))
+				continue
+			}
 			opts = append(opts, connect.WithCodec(trackCodec{rawCodec{name}, &used}))
 		}
 		var h *connect.Handler
@@ -183,6 +192,9 @@ func dispOp(c *Ctx, op string) {
 func advertisedList(kind, codecs string) string {
 	set := map[string]bool{}
 	for _, n := range strings.Split(codecs, ",") {
+		if n == "" {
+			continue // WithCodec with an empty name registers nothing
+		}
 		if kind == "unary" {
 			set["application/"+n] = true
 		} else {
@@ -254,7 +266,7 @@ func streamDisp(c *Ctx) {
 	}
 	r := c.Rng
 	kinds := []string{"unary", "client", "server", "bidi"}
-	codecSets := []string{"proto,json", "proto,json,raw", "proto,json,a,b", "proto,json,json2"}
+	codecSets := []string{"proto,json", "proto,json,raw", "proto,json,a,b", "proto,json,json2", "proto,json,raw+v2", "proto,json,,x"}
 	methods := []string{"POST", "GET", "PUT", "post", "OPTIONS", "HEAD", "DELETE", "PATCH", "POSTX", "POS", "CONNECT", "TRACE"}
 	versions := [][2]int{{1, 0}, {1, 1}, {2, 0}, {3, 0}}
 	procedure := "/acme.v1.Svc/Do"
